@@ -103,6 +103,11 @@ func (t *template) RenderReader(ctx context.Context, w io.Writer, r io.Reader) e
 	})
 
 	// Buffer the output to ensure w is unmodified on error
+	// Every v-once element of the parsed template gets its own id.
+	for _, node := range dom {
+		assignSeenAttrs(&vueCtx, node)
+	}
+
 	buf := &bytes.Buffer{}
 	if err := t.vue.renderNodesWithContext(vueCtx, buf, dom); err != nil {
 		return err
